@@ -29,7 +29,7 @@ C15 driver (Float; floats as 16-hex-digit bit patterns).
 reply:
   ok opIdx | proposed(flat) | hr (fin x | inf) | lp (none | bad | fin x) | accProb accepted u(none|x)
      | stateAfter(flat) | logJointAfter | logged (bad | fin x) | scaleAfter adaptCount accept reject wlen w..
-     | consumed nr ni nd nn | epoch acceptTotal | adaptor states (adaptive calls accepted ; dual calls counter x xbar sbar ; mass)
+     | consumed nr ni nd nn | epoch acceptTotal logSample tuneSample | adaptor states (adaptive calls accepted ; dual calls counter x xbar sbar ; mass)
   none                                                 (tape dry / operator index out of range)
 -/
 open TT TT.C15 TT.Proto TTGen.C15_Tuning
@@ -246,7 +246,7 @@ def runStep : P String := do
       s!"{showLP r.logged} | {showF r.scaleAfter} {op'.adaptCount} {op'.accept} {op'.reject} " ++
       s!"{op'.window.length} {w} | {rands.length - tape'.rands.length} " ++
       s!"{ints.length - tape'.ints.length} {dirs.length - tape'.dirs.length} " ++
-      s!"{normals.length - tape'.normals.length} | {m'.epoch} {m'.acceptTotal} | " ++
+      s!"{normals.length - tape'.normals.length} | {m'.epoch} {m'.acceptTotal} {r.logSample} {r.tuneSample} | " ++
       " ; ".intercalate (op'.adaptors.map showAdaptor))
 
 def handle (line : String) : String :=
